@@ -1,0 +1,26 @@
+//go:build verif
+// +build verif
+
+package resolver
+
+import "sort"
+
+// Thin wrappers (no logic) used by the verification harness in /verif (C08).
+
+func VerifExpansionKeysLess(keyA string, keyB string) bool {
+	return expansionKeysArray{{key: keyA}, {key: keyB}}.Less(0, 1)
+}
+
+// sort.Stable with the real comparator, as parseImportsExportsMap does
+func VerifSortExpansionKeys(keys []string) []string {
+	arr := make(expansionKeysArray, len(keys))
+	for i, k := range keys {
+		arr[i] = pjMapEntry{key: k}
+	}
+	sort.Stable(arr)
+	out := make([]string, len(arr))
+	for i, it := range arr {
+		out[i] = it.key
+	}
+	return out
+}
